@@ -357,6 +357,30 @@ func main() {
 		if len(c.Violations) > 0 {
 			os.Exit(1)
 		}
+	case "replay":
+		// verifx replay <id> <path>: re-run one stored counterexample against the native build
+		b, err := os.ReadFile(os.Args[3])
+		if err != nil {
+			fmt.Fprintln(os.Stderr, err)
+			os.Exit(2)
+		}
+		var rf ReplayFile
+		json.Unmarshal(b, &rf)
+		os.MkdirAll(filepath.Join(verifDir, ".work"), 0755)
+		wd, _ := os.MkdirTemp(filepath.Join(verifDir, ".work"), "replay-")
+		defer os.RemoveAll(wd)
+		if rf.Pkg == "" {
+			fmt.Println(replayModeS(wd, &rf, os.Args[3]))
+			return
+		}
+		lbl, st, out := nativeReplay(wd, rf.Pkg, &rf, os.Args[3])
+		fmt.Println(out)
+		if st == "violated" {
+			fmt.Printf("VIOLATION property=%s replay=%s (label %s)\n", rf.Property, os.Args[3], lbl)
+			os.RemoveAll(wd)
+			os.Exit(1)
+		}
+		fmt.Printf("replay result: %s\n", st)
 	case "selftest":
 		os.Exit(selftest())
 	default:
